@@ -51,6 +51,12 @@ pub struct Sc {
     /// 2 a longer valid program
     #[serde(default)]
     pub pre: u8,
+    /// in-process runs: an earlier `quizx opt` call on the same (fresh) thread before the one under
+    /// test: 0 none; 1 a sibling circuit (same gates and qubits, other rz/rx angles); 2 the same
+    /// with T/S replaced by their adjoints; 3 another circuit at the SAME input path, which is then
+    /// overwritten by the real one; 4 a failing call (missing input) first
+    #[serde(default)]
+    pub history: u8,
 }
 
 #[derive(Clone, Copy)]
@@ -347,7 +353,8 @@ impl Property for C03 {
             _ => Mode::InProcess,
         };
         let pre = if d.coin("pre", 1, 3) { 1 + d.choose("prek", 2) as u8 } else { 0 };
-        Sc { circ, strategy, mode, pre }
+        let history = if matches!(mode, Mode::InProcess) && d.coin("hist", 1, 4) { 1 + d.choose("histk", 4) as u8 } else { 0 };
+        Sc { circ, strategy, mode, pre, history }
     }
 
     fn execute(&self, sc: &Sc, sub: &str, exec: Decider, env: &Env) -> RunOut {
@@ -373,6 +380,24 @@ impl Property for C03 {
             && sc.circ.gates.iter().any(|g| g.k.is_non_clifford());
         match &sc.mode {
             Mode::InProcess => {
+                if sc.history > 0 {
+                    out.probe(&format!("cli_call_history.{}", sc.history));
+                    let wpath = match sc.history {
+                        3 => scratch.path("in.qasm"),
+                        4 => scratch.path("no-such-file.qasm"),
+                        _ => scratch.path("earlier.qasm"),
+                    };
+                    if sc.history != 4 {
+                        std::fs::write(&wpath, super::c06::sibling(&sc.circ, sc.history >= 2).to_qasm()).expect("scratch write");
+                    }
+                    let mut argv: Vec<String> = vec!["quizx".into(), "opt".into(), wpath.to_string_lossy().to_string()];
+                    argv.extend(strategy_args(sc.strategy));
+                    argv.push("-o".into());
+                    argv.push(scratch.path("earlier-out.qasm").to_string_lossy().to_string());
+                    let (_res, core) = cli::run_in_process(&argv, dec, 1);
+                    dec = core.dec;
+                    out.steps += 1;
+                }
                 let input = cli::prepare_input(&scratch, &header, &stmts, &InFault::None);
                 let outp = scratch.path("out.qasm");
                 cli::precreate(&outp, sc.pre, STALE_PROGRAM);
@@ -703,6 +728,9 @@ impl Property for C03 {
         }
         if sc.pre != 0 {
             c.push(Sc { pre: 0, ..sc.clone() });
+        }
+        if sc.history != 0 {
+            c.push(Sc { history: 0, ..sc.clone() });
         }
         if let Mode::ChildSys { plan, to_stdout } = &sc.mode {
             for p in cli::shrink_sysplan(plan) {
